@@ -412,7 +412,7 @@ theorem genNode_mstep (st : St ρ) n f' (hf : fuel + 1 ≤ f')
   cases n with
   | elem e kids tail =>
     unfold Ctl.genNode at hnf ⊢
-    exact seq_mono hnf (fun h => ih.genElem st e kids f0 hf0 h) (fun _ _ _ => rfl)
+    exact seq_mono hnf (fun h => ih.genElem st _ kids f0 hf0 h) (fun _ _ _ => rfl)
   | comment c tail => unfold Ctl.genNode; rfl
   | text t => unfold Ctl.genNode; rfl
   | cdata c => unfold Ctl.genNode; rfl
@@ -560,12 +560,23 @@ def tagsOf (ks : Nodes) : List Tag := ks.toList.zipIdx.map fun (n, i) => ({ idx 
 def LitEval (ev : Evalr ρ) (vals : List Rat) : Prop :=
   ∀ v ∈ vals, ∀ geo env rng, ev.evalAttr geo env rng (loopVarStr v) = .ok (loopVarStr v, rng)
 
+/-- the defaults in force leave the `<var name="v"/>` of the unrolling as written. (`apply_defaults` treats
+    every empty-element tag alike: a default for `_` or for `var` adds its attributes to a `<var>` element,
+    which then sets them as variables - something the loop, which binds its variable directly, does not do.) -/
+def VarUntouched (st : St ρ) (name : Str) (v : Rat) : Prop :=
+  applyDefaults st { name := cs!"var", attrs := [(name, loopVarStr v)] } = { name := cs!"var", attrs := [(name, loopVarStr v)] }
+
+instance (st : St ρ) (name : Str) (v : Rat) : Decidable (VarUntouched st name v) := by
+  unfold VarUntouched; infer_instance
+
 /-- in each of the `n` remaining passes (pass number `it`, value `v`, state `st` at its start) every tag of the body
-    succeeds at its FIRST attempt (one `onePass`, at some fuel `g`, leaves nothing pending), no limit is hit -/
+    succeeds at its FIRST attempt (one `onePass`, at some fuel `g`, leaves nothing pending), no limit is hit, and
+    no default in force applies to the `<var>` element the unrolling writes before the pass -/
 def FirstTryLoop (ev : Evalr ρ) (name : Str) (step : Rat) (ks : Nodes) : Nat → St ρ → Rat → Nat → Prop
   | 0, _, _, _ => True
   | n + 1, st, v, it =>
     st.depth + 1 ≤ st.cfg.depthLimit ∧ (String.ofList (loopVarStr v)).utf8ByteSize ≤ st.cfg.varLimit ∧
+    VarUntouched st name v ∧
     ∃ g st' outs bb, onePass ev g (bindLoopVar st name v) (tagsOf ks) [] none [] = (st', .ok (outs, bb, [])) ∧
       it + 1 ≤ st'.cfg.loopLimit ∧ FirstTryLoop ev name step ks n st' (v + step) (it + 1)
 
@@ -880,6 +891,7 @@ theorem genNode_varNode (ev : Evalr ρ) (g : Nat) (st : St ρ) (name : Str) (v :
     (hname : name ≠ [] ∧ name ≠ ['_'] ∧ name ≠ cs!"__" ∧ name ≠ cs!"id")
     (hdepth : st.depth + 1 ≤ st.cfg.depthLimit)
     (hvar : (String.ofList (loopVarStr v)).utf8ByteSize ≤ st.cfg.varLimit)
+    (hdef : VarUntouched st name v)
     (hev : ∀ geo env rng, ev.evalAttr geo env rng (loopVarStr v) = .ok (loopVarStr v, rng)) :
     genNode ev (g + 3) st (varNode name v) = (bindLoopVar st name v, .ok ([], none)) := by
   have hd : ¬ (st.depth + 1 > st.cfg.depthLimit) := by omega
@@ -900,7 +912,8 @@ theorem genNode_varNode (ev : Evalr ρ) (g : Nat) (st : St ρ) (name : Str) (v :
     simp only [hdisp, clipPost]
     rw [setVar_depth_roundtrip]
   rw [C16.loop_binding st name v hname.1]
-  simp only [varNode, genNode, helem, seq, withTail]
+  unfold VarUntouched at hdef
+  simp only [varNode, genNode, leafDefaults, hdef, helem, seq, withTail]
 
 /-! ### the fuel-free relation for the whole run -/
 
@@ -910,6 +923,7 @@ inductive Passes (ev : Evalr ρ) (name : Str) (step : Rat) (ks : Nodes) :
   | pass {n : Nat} {st : St ρ} {v : Rat} {it : Nat} {s1 : St ρ} {evs : List Ev} {b : Option BoundingBox}
       {s2 : St ρ} {evs' : List Ev} {bb : Option BoundingBox} :
       st.depth + 1 ≤ st.cfg.depthLimit → (String.ofList (loopVarStr v)).utf8ByteSize ≤ st.cfg.varLimit →
+      VarUntouched st name v →
       FT ev (bindLoopVar st name v) ks.toList s1 evs b → it + 1 ≤ s1.cfg.loopLimit →
       Passes ev name step ks n s1 (v + step) (it + 1) s2 evs' bb →
       Passes ev name step ks (n + 1) st v it s2 (evs ++ evs') (unionOpt b bb)
@@ -922,13 +936,13 @@ theorem passes_of_firstTry (ev : Evalr ρ) (name : Str) (step : Rat) (ks : Nodes
   | zero => intro st v it _ _; exact ⟨st, [], none, Passes.done st v it⟩
   | succ n ih =>
     intro st v it hok h
-    obtain ⟨hd, hv, g, st', outs, bb, hone, hlim, hrest⟩ := h
+    obtain ⟨hd, hv, hdf, g, st', outs, bb, hone, hlim, hrest⟩ := h
     have hokb : Ok (bindLoopVar st name v) := ok_bindLoopVar st name v hok
     obtain ⟨evs, b, hft, _, _⟩ := FT_of_onePass ev (tagsOf ks) g _ [] none st' outs bb hokb hone
     rw [tagsOf_node] at hft
     have hok' : Ok st' := FT_ok hft hokb
     obtain ⟨s2, evs', bb', hp⟩ := ih st' (v + step) (it + 1) hok' hrest
-    exact ⟨s2, evs ++ evs', unionOpt b bb', Passes.pass hd hv hft hlim hp⟩
+    exact ⟨s2, evs ++ evs', unionOpt b bb', Passes.pass hd hv hdf hft hlim hp⟩
 
 /-- LOOP SIDE -/
 theorem loopIter_of_passes {ev : Evalr ρ} {name : Str} {step : Rat} {ks : Nodes}
@@ -943,7 +957,7 @@ theorem loopIter_of_passes {ev : Evalr ρ} {name : Str} {step : Rat} {ks : Nodes
     cases f with
     | zero => simp [loopIter, NF] at hnf
     | succ f => rw [loopIter]; simp [seq, preTest, unionOpt_none_right]
-  | @pass n st v it s1 evs b s2 evs' bb hd hv hft hlim _ ih =>
+  | @pass n st v it s1 evs b s2 evs' bb hd hv hdf hft hlim _ ih =>
     intro f acc bb0 hok hnf
     cases f with
     | zero => simp [loopIter, NF] at hnf
@@ -971,14 +985,14 @@ theorem FT_unroll_of_passes {ev : Evalr ρ} {name : Str} {step : Rat} {ks : Node
     FT ev st (unroll name (loopVals v step n) ks).toList s2 evs bb := by
   induction hp with
   | done st v it => intro _; exact (FT.nil st).cast (by simp [unroll, loopVals, toList_ofList]) rfl rfl
-  | @pass n st v it s1 evs b s2 evs' bb hd hv hft hlim _ ih =>
+  | @pass n st v it s1 evs b s2 evs' bb hd hv hdf hft hlim _ ih =>
     intro hev
     have hev1 := hev v (by simp [loopVals])
     have hev2 : LitEval ev (loopVals (v + step) step n) := fun w hw => hev w (by simp [loopVals, hw])
     have hvar : genNode ev (0 + 3) (registerEarly ev st (varNode name v)) (varNode name v)
         = (bindLoopVar st name v, .ok ([], none)) := by
       rw [registerEarly_varNode ev st name v hname.2.2.2]
-      exact genNode_varNode ev 0 st name v hname hd hv hev1
+      exact genNode_varNode ev 0 st name v hname hd hv hdf hev1
     have h := FT.cons hvar (FT_append hft (ih hev2))
     refine h.cast ?_ (by simp) (C16.unionOpt_none_left _).symm
     simp [unroll, loopVals, toList_ofList]
@@ -1077,7 +1091,7 @@ theorem loopIter_NF_of_passes {ev : Evalr ρ} {name : Str} {step : Rat} {ks : No
     refine ⟨1, fun f hf acc bb0 => ?_⟩
     obtain ⟨f, rfl⟩ : ∃ f', f = f' + 1 := ⟨f - 1, by omega⟩
     rw [loopIter]; simp [seq, preTest, NF]
-  | @pass n st v it s1 evs b s2 evs' bb hd hv hft hlim _ ih =>
+  | @pass n st v it s1 evs b s2 evs' bb hd hv hdf hft hlim _ ih =>
     intro hok
     have hokb : Ok (bindLoopVar st name v) := ok_bindLoopVar st name v hok
     have hok1 : Ok s1 := FT_ok hft hokb
@@ -1175,6 +1189,7 @@ def firstTryLoopB (ev : Evalr ρ) (name : Str) (step : Rat) (ks : Nodes) (g : Na
   | n + 1, st, v, it =>
     decide (st.depth + 1 ≤ st.cfg.depthLimit) &&
     decide ((String.ofList (loopVarStr v)).utf8ByteSize ≤ st.cfg.varLimit) &&
+    decide (VarUntouched st name v) &&
     match onePass ev g (bindLoopVar st name v) (tagsOf ks) [] none [] with
     | (st', .ok (_, _, [])) =>
       decide (it + 1 ≤ st'.cfg.loopLimit) && firstTryLoopB ev name step ks g n st' (v + step) (it + 1)
@@ -1190,11 +1205,11 @@ theorem firstTryLoop_of_B (ev : Evalr ρ) (name : Str) (step : Rat) (ks : Nodes)
     intro st v it h
     unfold firstTryLoopB at h
     simp only [Bool.and_eq_true, decide_eq_true_eq] at h
-    obtain ⟨⟨hd, hv⟩, hm⟩ := h
+    obtain ⟨⟨⟨hd, hv⟩, hdf⟩, hm⟩ := h
     split at hm
     · rename_i st' outs bb heq
       simp only [Bool.and_eq_true, decide_eq_true_eq] at hm
-      exact ⟨hd, hv, g, st', outs, bb, heq, hm.1, ih st' _ _ hm.2⟩
+      exact ⟨hd, hv, hdf, g, st', outs, bb, heq, hm.1, ih st' _ _ hm.2⟩
     · cases hm
 
 /-! ## (C) non-vacuity: a concrete loop, checked by kernel evaluation
